@@ -66,8 +66,22 @@ class SplitMix64:
         return self.below(den) < num
 
 
+def _san_env(env):
+    """Every harness run gets detect_stack_use_after_return=1: a pointer kept to a dead parameter / local (e.g. a
+    loser tree storing the address of a by-value sentinel) is otherwise invisible to ASan."""
+    e = dict(os.environ if env is None else env)
+    a = e.get("ASAN_OPTIONS", "")
+    if "detect_stack_use_after_return" not in a:
+        e["ASAN_OPTIONS"] = (a + ":" if a else "") + "detect_stack_use_after_return=1"
+    return e
+
+
+os.environ.update({"ASAN_OPTIONS": _san_env(None)["ASAN_OPTIONS"]})  # direct Popen users inherit it too
+
+
 def sh(cmd, timeout=None, cwd=None, env=None, input=None):
     """Run, capture stdout+stderr (merged). Returns (rc, text). rc=124 on timeout."""
+    env = _san_env(env)
     try:
         p = subprocess.run(cmd, cwd=cwd, env=env, input=input, stdout=subprocess.PIPE,
                            stderr=subprocess.STDOUT, timeout=timeout,
